@@ -10,7 +10,7 @@ LEVEL = "proof"
 REPLAY = "replay/c25.py"
 # bounded complement to the proof (pyvc/runner.py _start_native_side_check): the native falsifier also runs when all
 # obligations discharge -- floats are reals in the proofs (A1) and only the functions under contract are covered
-NATIVE_SIDE_CHECK = {"quick": False, "thorough": True}
+NATIVE_SIDE_CHECK = {"quick": True, "thorough": True}
 
 
 
